@@ -75,7 +75,7 @@ def menu_calls(name, L):
               ('expect', ('ab', 'EOF'), -1, 5), ('expect', ('TIMEOUT', 'b', 'EOF'), -1, 5),
               ('list', ('ab', 'b'), -1, 5), ('list', ('ba',), L + 1, 5),
               ('read', 1), ('read', 2), ('read', -1),
-              ('setbuf', 'empty'), ('setbuf', 'b'), ('setbuf', 'cur+a')]
+              ('setbuf', 'empty'), ('setbuf', 'b'), ('setbuf', 'cur+a'), ('setsw', None), ('setsw', 2)]
     elif name == 'zw':
         for p in (('b*',), ('a$',), ('$',), ('\\Z',), ('(?=b)',), ('^',), ('a*?',)):
             for sw in (-1, None, 1, 2):
@@ -102,7 +102,7 @@ def menu_calls(name, L):
               ('expect', ('$',), -1, 5), ('expect', ('b*',), 2, 5), ('expect', ('a$',), None, 5),
               ('expect', ('ab', 'TIMEOUT'), -1, 0), ('exact', ('ab', 'TIMEOUT'), 3, 5),
               ('list', ('a', 'EOF'), -1, None),
-              ('read', 2), ('read', -1), ('readline',), ('setbuf', 'b'), ('setbuf', 'cur+a')]
+              ('read', 2), ('read', -1), ('readline',), ('setbuf', 'b'), ('setbuf', 'cur+a'), ('setsw', None), ('setsw', 1)]
     return c
 
 
@@ -222,6 +222,10 @@ class World(object):
                 except StopIteration:
                     ret = 'STOP'
                 sp.timeout = 5
+            elif kind == 'setsw':
+                # the instance default search window is changed between two calls (documented attribute)
+                sp.searchwindowsize = call[1]
+                return 'setsw', None
             elif kind == 'setbuf':
                 if call[1] in ('cur+a', 'b'):
                     # injected text is charged to the stream budget (keeps the space finite)
@@ -342,7 +346,7 @@ class World(object):
                 env[2] = empty
         if flags is not None and (T_ or nreads[0]):
             flags['_nontrivial'] += 1
-        if flags is not None and self.task['inst_sw'] and len(sp._buffer.getvalue()) < len(sp._before.getvalue()):
+        if flags is not None and sp.searchwindowsize and len(sp._buffer.getvalue()) < len(sp._before.getvalue()):
             flags['window_trim'] += 1
         return out, viol
 
@@ -370,6 +374,8 @@ def vkey(call, sym):
     call = canon_call(call)
     if call[0] in ('expect', 'exact', 'list'):
         return '%s:%s:%s' % (call[0], '|'.join(call[1]), sym)
+    if call[0] == 'setsw':
+        return 'setsw:%s' % sym
     return '%s:%s' % (call[0], sym)
 
 
@@ -377,7 +383,7 @@ def run_task(task, world_cls=None):
     install_clock()
     acc = Acc()
     w = (world_cls or World)(task)
-    init = (w.S(''), w.S(''), w.S(''), task['L'], False, False)
+    init = (w.S(''), w.S(''), w.S(''), task['L'], False, False, task['inst_sw'])
     cap = task.get('cap', 400000)
     parent = {init: None}
     frontier = [init]
@@ -393,10 +399,11 @@ def run_task(task, world_cls=None):
                     CLOCK.reset()
                     sp = w.new_spawn()
                     sp.restore(st[0], st[1], st[5])
+                    sp.searchwindowsize = st[6]
                     env = [st[3], st[4], st[2]]
                     out, viol = w.do_call(sp, env, call, ch, flags)
                     b, f = sp.snap()
-                    return out, viol, (b, f, env[2], env[0], env[1], sp.aliased())
+                    return out, viol, (b, f, env[2], env[0], env[1], sp.aliased(), sp.searchwindowsize)
                 for ch, (out, viol, ns) in dfs(run):
                     acc.execs += 1
                     acc.transitions += 1
@@ -425,10 +432,10 @@ def run_task(task, world_cls=None):
             sp, env, obs, viol = w.run_history(hist)
             live_checked += 1
             b, f = sp.snap()
-            if viol or (b, f, env[2], env[0], env[1], sp.aliased()) != ns:
+            if viol or (b, f, env[2], env[0], env[1], sp.aliased(), sp.searchwindowsize) != ns:
                 acc.violation('snapshot-vs-live-divergence',
                               'state %r reached by restore differs from live run %r'
-                              % (ns, (b, f, env[2], env[0], env[1], sp.aliased())),
+                              % (ns, (b, f, env[2], env[0], env[1], sp.aliased(), sp.searchwindowsize)),
                               {'task': task, 'history': hist, 'expect_state': list(ns)})
         frontier = nxt
         depth += 1
@@ -470,7 +477,7 @@ def replay(spec, world_cls=None):
                             'msg': 'pending %r' % (sp._before.getvalue(),)}
     elif 'expect_state' in spec:
         b, f = sp.snap()
-        now = [b, f, env[2], env[0], env[1], sp.aliased()]
+        now = [b, f, env[2], env[0], env[1], sp.aliased(), sp.searchwindowsize]
         if now != list(spec['expect_state']):
             out['violation'] = {'key': 'snapshot-vs-live-divergence', 'msg': repr(now)}
     return out
